@@ -56,5 +56,23 @@ def run(chk, w):
                    "%s returns Ok(None) on a path where the window is not known to be 0 and the emptiness tests of its weight-bearing parameters %s gave %s: "
                    "a model with a non-empty dictionary or n-gram set would lose those weights from every boundary score" % (fn, bearing, empties),
                    site=C.site(b, o.bb), sample={"ctor": short, "window_zero": win0, "is_empty": {str(k): v_ for k, v_ in empties.items()}})
+        # converse (needed for "every trained model is accepted by the predictor"): a scorer whose boundary model has no pattern at
+        # all must be absent - the automaton builder rejects an empty pattern set, so constructing the scorer would turn a model
+        # the trainer has just returned into an InvalidModel error
+        bad_present = []
+        for o in outs:
+            tr_empty = {}
+            for e in o.trace:
+                if e[0] == "call" and (e[2] or "").endswith("::is_empty") and e[3] and e[3][0][0] == "ref":
+                    root = e[3][0][1][0]
+                    if root[0] in ("L", "A"):
+                        r = e[5] if len(e) > 5 and e[5] is not None else None
+                        tr_empty[root[1]] = r[1] if r and r[0] == "b" else None
+            ctor = [e for e in o.trace if e[0] == "call" and re.search(r"(Char|Type)ScorerBoundary\w*::new$", e[2] or "")]
+            if ctor and bearing and all(tr_empty.get(i) is True for i in bearing):
+                bad_present.append(ctor[0][2].split("::")[-2])
+        chk.ob("R01.8", "%s:no-pattern-implies-absent" % short, not bad_present,
+               "%s constructs %s on a path where every n-gram / dictionary table of the boundary model was found empty: the automaton cannot be built from an empty pattern set, "
+               "so Predictor::new rejects a model that training returned" % (fn, sorted(set(bad_present))), site=C.site(b), nontrivial=True)
         chk.ob("R01.8", "%s:has-present-path" % short, somes > 0 and bool(bearing) and bool(window), "%s: %d Ok(Some) paths, weight-bearing parameters %s, window parameters %s" % (fn, somes, bearing, window), site=C.site(b), nontrivial=False)
     chk.floor("R01.8", "absent paths", n, 4, other=4)
